@@ -400,3 +400,21 @@ package redis
 //@   let v = r.raw.body.Array
 //@   loop 0 invariant 1 <= i && i <= len(v) && len(sreqs) == i - 1 && cap(sreqs) == len(v) - 1 && fresh(sreqs) && v == old(r.raw.body.Array) && r.raw == old(r.raw) && r.raw.body == old(r.raw.body)
 //@   loop 0 invariant forall k int :: 0 <= k && k < len(sreqs) ==> sumchild(sreqs[k], v, k+1) && fresh(sreqs[k]) && fresh(sreqs[k].body) && fresh(sreqs[k].body.Array)
+
+// ---- C01/C03: re-assembly of split replies by argument index -----------------------------------
+
+//@ func (*mgetRequest).setResponse
+//@   prop C01 C03 C11
+//@   requires r != nil && r.raw != nil && forall k int :: 0 <= k && k < len(r.children) ==> r.children[k] != nil && r.children[k].resp != nil
+//@   callpre SetResponse @array-of-child-replies-in-order arg0 == r.raw && arg1 != nil && arg1.Type == 42 && len(arg1.Array) == len(r.children) && forall k int :: 0 <= k && k < len(r.children) ==> samearg(arg1.Array[k], r.children[k].resp)
+//@   loop 0 invariant len(v) == len(r.children) && fresh(v) && r.children == old(r.children) && forall k int :: 0 <= k && k <= rangeindex ==> samearg(v[k], r.children[k].resp)
+
+//@ func (*sumResultRequest).setResponse
+//@   prop C01 C03 C11
+//@   requires r != nil && r.raw != nil && forall k int :: 0 <= k && k < len(r.children) ==> r.children[k] != nil && r.children[k].resp != nil
+//@   callpre SetResponse @sum-or-error arg0 == r.raw && arg1 != nil && (arg1.Type == 58 ==> arg1.Int == sumints(r.children, len(r.children)) && allints(r.children, len(r.children))) && (arg1.Type != 58 ==> arg1.Type == 45 && !allints(r.children, len(r.children)))
+//@   loop 0 invariant r.children == old(r.children) && total == sumints(r.children, rangeindex + 1) && 0 <= errCount && (errCount == 0) == allints(r.children, rangeindex + 1)
+//@   loop 0 unfold sumints(r.children, rangeindex + 2)
+//@   loop 0 unfold allints(r.children, rangeindex + 2)
+//@   loop 0 unfold sumints(r.children, rangeindex + 1)
+//@   loop 0 unfold allints(r.children, rangeindex + 1)
